@@ -52,6 +52,8 @@ def tla_cfg(cfg):
     keys = ["instProp", "mode", "targets", "items", "thr", "inverse", "allCompliant", "keepLess", "discardUseless",
             "allowOpt", "disableExact", "disableOr", "redundantOr", "removeEmpty", "cap", "ignoreNs", "salt", "decimals"]
     out = {k: cfg[k] for k in keys}
+    if cfg.get("instDoc"):
+        out["instDoc"] = cfg["instDoc"]
     out["items"] = [{"label": it["label"], "kind": it["kind"], "node": it.get("node", ["IRI", ""]),
                      "ps": it.get("ps", ["ANY", ""]), "pp": it.get("pp", ""), "po": it.get("po", ["ANY", ""])}
                     for it in cfg["items"]]
@@ -125,7 +127,7 @@ def expected_labels(case):
     out = {}
     classes = set(cfg["targets"])
     if cfg["mode"] in ("all", "mixed"):
-        for s, p, o in M.from_json_graph(case["graph"]):
+        for s, p, o in M.from_json_graph(cfg.get("instDoc") or case["graph"]):
             if p == cfg["instProp"] and M.is_node(o):
                 classes.add(o[1])
     if cfg["mode"] != "shapemap":
@@ -319,6 +321,21 @@ def project_tracked(inst_dict):
 
 
 def run_case(case, graph_kwargs=None, want_text=False):
+    if case["cfg"].get("instDoc") and graph_kwargs is None:
+        # instances_file_input: the instances document and the graph go through files of their own
+        import tempfile
+        import shutil
+        from shexer import consts as C
+        d = tempfile.mkdtemp(prefix="shexer-verif-inst-")
+        try:
+            with open(os.path.join(d, "g.nt"), "w", encoding="utf8") as fh:
+                fh.write(M.to_nt(M.from_json_graph(case["graph"])))
+            with open(os.path.join(d, "i.nt"), "w", encoding="utf8") as fh:
+                fh.write(M.to_nt(M.from_json_graph(case["cfg"]["instDoc"])))
+            return run_case(case, {"graph_file_input": os.path.join(d, "g.nt"), "instances_file_input": os.path.join(d, "i.nt"),
+                                   "input_format": C.NT}, want_text)
+        finally:
+            shutil.rmtree(d, ignore_errors=True)
     from shexer.shaper import Shaper
     from shexer import consts as C
     cfg = case["cfg"]
